@@ -146,26 +146,97 @@ def h_forms(eng, op, u, v, form):
         eng.prove(And(Eq(b.magnitude, y), b.units == ureg.Unit(v)), f"r{op}:other-untouched")
         return
     s0, plain = _run(lambda: f(a, b))
-    if form == "reflected":
-        pass
-    elif form == "inplace-scalar":
+    iop = getattr(operator, "i" + op)
+
+    def dim_follows(q, label):
+        # the memoised dimensionality (read before the operation) must follow the new units
+        fresh = ureg.Quantity(1, q._units)
+        eng.prove(q.dimensionality == fresh.dimensionality, f"{label}:dimensionality-follows-units")
+        eng.prove(q.check(fresh.dimensionality), f"{label}:check-follows-units")
+
+    if form == "inplace-scalar":
         a_i = ureg.Quantity(x, u)
-        s1, r = _run(lambda: getattr(operator, "i" + op)(a_i, b))
+        a_i.dimensionality
+        s1, r = _run(lambda: iop(a_i, b))
         eng.prove(s0 == s1, f"i{op}:same-kind-of-outcome")
         if s0 == "ok" and s1 == "ok":
             _same(eng, plain, r, f"i{op}")
+            dim_follows(r, f"i{op}")
         eng.prove(And(Eq(b.magnitude, y), b.units == ureg.Unit(v)), f"i{op}:other-untouched")
-    else:  # in-place on object arrays: the duck-array twins
+    elif form == "inplace-array":  # in-place on object arrays: the duck-array twins
         x2 = eng.real("x2")
         arr = ureg.Quantity(np.array([x, x2], dtype=object), u)
-        s1, r = _run(lambda: getattr(operator, "i" + op)(arr, b))
+        arr.dimensionality
+        s1, r = _run(lambda: iop(arr, b))
         eng.prove(s0 == s1, f"i{op}-array:same-kind-of-outcome")
         if s0 == "ok" and s1 == "ok":
             first = ureg.Quantity(r.magnitude[0], r._units)
             _same(eng, plain, first, f"i{op}-array[0]")
             _, plain2 = _run(lambda: f(ureg.Quantity(x2, u), b))
             _same(eng, plain2, ureg.Quantity(r.magnitude[1], r._units), f"i{op}-array[1]")
+            dim_follows(r, f"i{op}-array")
         eng.prove(And(Eq(b.magnitude, y), b.units == ureg.Unit(v)), f"i{op}-array:other-untouched")
+    elif form in ("array-array", "inplace-array-array"):
+        # both operands are object arrays: element-wise equal to the scalar form, right operand untouched
+        x2, y2 = eng.real("x2"), eng.real("y2")
+        if op in ("truediv", "floordiv", "mod"):
+            eng.assume(Not(Eq(y2, 0)))
+        arr = ureg.Quantity(np.array([x, x2], dtype=object), u)
+        barr = ureg.Quantity(np.array([y, y2], dtype=object), v)
+        arr.dimensionality
+        tag = ("i" if form.startswith("inplace") else "") + f"{op}-array-array"
+        s1, r = _run(lambda: (iop if form.startswith("inplace") else f)(arr, barr))
+        eng.prove(s0 == s1, f"{tag}:same-kind-of-outcome")
+        if s0 == "ok" and s1 == "ok":
+            _same(eng, plain, ureg.Quantity(r.magnitude[0], r._units), f"{tag}[0]")
+            _, plain2 = _run(lambda: f(ureg.Quantity(x2, u), ureg.Quantity(y2, v)))
+            _same(eng, plain2, ureg.Quantity(r.magnitude[1], r._units), f"{tag}[1]")
+            dim_follows(r, tag)
+            if not form.startswith("inplace"):
+                eng.prove(And(Eq(arr.magnitude[0], x), Eq(arr.magnitude[1], x2), arr.units == ureg.Unit(u)), f"{tag}:left-untouched")
+        eng.prove(And(Eq(barr.magnitude[0], y), Eq(barr.magnitude[1], y2), barr.units == ureg.Unit(v)), f"{tag}:other-untouched")
+    elif form in ("array-number", "inplace-array-number"):
+        # a bare number as right operand of an object-array quantity (u is dimensionless here)
+        x2 = eng.real("x2")
+        s0, plain = _run(lambda: f(a, y))
+        arr = ureg.Quantity(np.array([x, x2], dtype=object), u)
+        arr.dimensionality
+        tag = ("i" if form.startswith("inplace") else "") + f"{op}-array-number"
+        s1, r = _run(lambda: (iop if form.startswith("inplace") else f)(arr, y))
+        eng.prove(s0 == s1, f"{tag}:same-kind-of-outcome")
+        if s0 == "ok" and s1 == "ok":
+            _same(eng, plain, ureg.Quantity(r.magnitude[0], r._units), f"{tag}[0]")
+            _, plain2 = _run(lambda: f(ureg.Quantity(x2, u), y))
+            _same(eng, plain2, ureg.Quantity(r.magnitude[1], r._units), f"{tag}[1]")
+            dim_follows(r, tag)
+
+
+def h_ipow(eng, u, k, form):
+    """in-place power agrees with the plain form; the memoised dimensionality follows"""
+    import numpy as np
+
+    ureg = regs.default(eng)
+    x = eng.real("x")
+    if k < 0:
+        eng.assume(Not(Eq(x, 0)))
+    plain = ureg.Quantity(x, u) ** k
+    if form == "scalar":
+        a = ureg.Quantity(x, u)
+        a.dimensionality
+        a **= k
+        _same(eng, plain, a, f"ipow{k}")
+    else:
+        x2 = eng.real("x2")
+        if k < 0:
+            eng.assume(Not(Eq(x2, 0)))
+        a = ureg.Quantity(np.array([x, x2], dtype=object), u)
+        a.dimensionality
+        a **= k
+        _same(eng, plain, ureg.Quantity(a.magnitude[0], a._units), f"ipow{k}-array[0]")
+        _same(eng, ureg.Quantity(x2, u) ** k, ureg.Quantity(a.magnitude[1], a._units), f"ipow{k}-array[1]")
+    fresh = ureg.Quantity(1, a._units)
+    eng.prove(a.dimensionality == fresh.dimensionality, f"ipow{k}-{form}:dimensionality-follows-units")
+    eng.prove(a.check(fresh.dimensionality), f"ipow{k}-{form}:check-follows-units")
 
 
 def h_bare_number(eng, op, u, side):
@@ -243,8 +314,15 @@ def cases(tier, seed):
     # H03.b operator forms
     for op in ("add", "sub", "mul", "truediv", "floordiv", "mod"):
         for u, v in pairs[: (10 if big else 3)] + [("percent", "ppm")]:
-            for form in ("inplace-scalar", "inplace-array"):
+            for form in ("inplace-scalar", "inplace-array", "array-array", "inplace-array-array"):
                 out.append(Case("H03.b", f"{form}:{op}:{u},{v}", M, "h_forms", {"op": op, "u": u, "v": v, "form": form}, weight=2.0, opts={"query_timeout_ms": 20000}))
+        for u in ("percent", "ppm", "degree", "radian", "dimensionless") + (("count", "turn", "millimeter/meter") if big else ()):
+            for form in ("array-number", "inplace-array-number"):
+                out.append(Case("H03.b", f"{form}:{op}:{u}", M, "h_forms", {"op": op, "u": u, "v": "dimensionless", "form": form}, weight=2.0, opts={"query_timeout_ms": 20000}))
+    for k in (-2, -1, 0, 1, 2, 3):
+        for u in ("meter", "percent", "newton") + (tuple(rnd.sample(cov, 4)) if big else ()):
+            for form in ("scalar", "array"):
+                out.append(Case("H03.b", f"ipow{k}:{form}:{u}", M, "h_ipow", {"u": u, "k": k, "form": form}))
     for op in ("add", "sub", "mul", "truediv", "floordiv", "mod"):
         for v in ("percent", "radian", "count", "meter", "ppm"):
             if v == "meter" and op in ("add", "sub"):
